@@ -27,6 +27,7 @@ def required(tier):
     b = {f'prior:{k}': 5 for k in PRIOR}
     b['out-of-band-twice'] = 100
     b['frame-wider-than-2^16-channels'] = 10
+    b['unseeded-frame-and-profiles'] = 100
     b.update({f'bound:{k}': 5 for k in set(work_sig.BOUND_KINDS)})
     b.update({f'flags:{k}': 1 for k in range(16)})
     b.update({'sequence>=2': 20, 'outside-columns-exist': 50, 'cadence-injection-state': 50, 'derived-sibling-watched': 100, 'noise-estimate-vs-control-frame': 40})
@@ -194,6 +195,21 @@ def run_case(c, R):
         # library hands out later
         ret += 3.25
         kept_returns.append((ret, ret.copy()))
+    # nothing seeded at all (frame, stochastic path, stochastic time profile built without a seed): the frame's random state is
+    # still the frame's own -- an injection that draws its randomness elsewhere leaves it where it was
+    if c['_idx'] % 5 == 0:
+        R.bucket('unseeded-frame-and-profiles')
+        uf = stg.Frame(fchans=min(g['fchans'], 64), tchans=min(g['tchans'], 8), df=g['df'], dt=g['dt'], fch1=g['fch1'], ascending=g['asc'])
+        uf2 = stg.Frame(fchans=min(g['fchans'], 64), tchans=min(g['tchans'], 8), df=g['df'], dt=g['dt'], fch1=g['fch1'], ascending=g['asc'])
+        st0 = copy.deepcopy(uf.rng.bit_generator.state)
+        st2 = copy.deepcopy(uf2.rng.bit_generator.state)
+        upath = stg.simple_rfi_path(float(uf.fs[len(uf.fs) // 2]), 0.0, 3 * uf.df, spread_type='uniform', rfi_type='random_walk')
+        utprof = stg.periodic_gaussian_t_profile(2 * uf.dt, 3 * uf.dt, phase=0.0, pulse_offset_width=0.3 * uf.dt, pulse_direction='rand', pnum=3,
+                                                 amplitude=1.0, level=1.0, min_level=0.0)
+        uf.add_signal(upath, utprof, stg.gaussian_f_profile(3 * uf.df), stg.constant_bp_profile(level=1.0))
+        R.check(uf.rng.bit_generator.state == st0, 'state-changed:rng:unseeded-frame-and-profiles')
+        R.check(uf2.rng.bit_generator.state == st2, 'another-unseeded-frame-random-state-changed-by-injection')
+        R.check(uf.rng is not uf2.rng, 'unseeded-frames-share-one-generator')
     # an array that was returned belongs to the caller from then on: later injections into the same frame leave it alone
     for j_, (arr_, cp_) in enumerate(kept_returns):
         R.check(np.array_equal(arr_, cp_), 'returned-array-changed-by-a-later-injection', call=j_, calls=len(kept_returns))
